@@ -292,7 +292,7 @@ class Evaluator:
                  rewrite: Optional[Callable[[Term], Optional[Term]]] = None,
                  max_depth: int = 4, inline_static: bool = False,
                  opaque_methods: Tuple[str, ...] = (), inline_ctors: Tuple[str, ...] = (),
-                 effect_methods: Tuple[str, ...] = ()):
+                 effect_methods: Tuple[str, ...] = (), list_terms: Tuple[Term, ...] = ()):
         self.repo = repo
         self.module = module
         self.cls = cls
@@ -302,6 +302,7 @@ class Evaluator:
         self.opaque_methods = set(opaque_methods)
         self.inline_ctors = set(inline_ctors)
         self.effect_methods = set(effect_methods)
+        self.list_terms = set(list_terms)
         self.depth = 0
         self.max_outcomes = 4000
         self.imports = self._imports(module)
@@ -589,6 +590,17 @@ class Evaluator:
                         carried_fields[(base, n.attr)] = ("carried", lid, n.value.id + "." + n.attr)
         for k, v in carried_fields.items():
             body_st.fields[k] = v
+        # heap lists that the body mutates have an unknown length inside the body
+        marked = set()
+        for sub in node.body:
+            for n in ast.walk(sub):
+                if isinstance(n, ast.Call) and isinstance(n.func, ast.Attribute) and n.func.attr in MUTATORS \
+                        and isinstance(n.func.value, ast.Name):
+                    r = st.env.get(n.func.value.id)
+                    ob = st.obj(r) if r is not None else None
+                    if ob is not None and ob.get("kind") == "list" and r[1] not in marked:
+                        marked.add(r[1])
+                        body_st.heap[r[1]]["items"].append(("loopitem", lid, ("carried",)))
         pre_env = dict(body_st.env)
         pre_fields = dict(body_st.fields)
         if isinstance(node, ast.For):
@@ -616,7 +628,7 @@ class Evaluator:
         summary["assigned"] = assigned
         st.loops[lid] = summary
         # heap lists appended to in the body: record loop-built items
-        base_len = {n: len(ob["items"]) for n, ob in st.heap.items() if ob.get("kind") == "list"}
+        base_len = {n: len(ob["items"]) + (1 if n in marked else 0) for n, ob in st.heap.items() if ob.get("kind") == "list"}
         for o in outs:
             for n, ob in o.state.heap.items():
                 if n in st.heap and ob.get("kind") == "list":
@@ -925,7 +937,7 @@ class Evaluator:
         return ("lencmp", x, op, n), pol
 
     def _listlike(self, t: Term, st: State) -> bool:
-        if t in st.suffix:
+        if t in st.suffix or t in self.list_terms:
             return True
         o = st.obj(t)
         return o is not None and o.get("kind") == "list"
